@@ -16,8 +16,8 @@
 (* Abstract request:                                                                  *)
 (*   host  sequence of labels        <<"a","example","com">>      "a.example.com"      *)
 (*   path  sequence of segments      <<"a","b">> "/a/b", <<"a","">> "/a/", <<"">> "/" *)
-(*   query ordered list of pairs [k, enc, eq, v, dv]: key k spelled plain ("a") or    *)
-(*         percent-encoded ("%61"), with or without '=', raw value v, decoded dv      *)
+(*   query ordered list of pairs [k, sp, eq, v, dv]: decoded key k, its raw spelling  *)
+(*         sp (one of Spellings[k]), with or without '=', raw value v, decoded dv     *)
 (*   hdr / rhdr  request / response header: name -> sequence of values                *)
 (* Gray (judge = {}): shapes whose effect the documents do not define; they are       *)
 (* replayed for panics and compared with Layer M for drift only.                      *)
@@ -25,7 +25,7 @@ EXTENDS Integers, Sequences, FiniteSets, TLC
 
 CONSTANTS DocRewrite, DocHeader, DocRedirect,  \* action names read from the docs
           DocVars,                             \* variable names read from mod_header.md
-          Keys,                                \* query keys, subset of {"a","b","c","ab","ba"}
+          Keys,                                \* query keys (decoded form), subset of DOMAIN Spellings
           MaxPairs                             \* query length bound
 
 RewriteCmds  == {"HOST_SET", "HOST_SET_FROM_PATH_PREFIX", "HOST_SUFFIX_REPLACE",
@@ -52,21 +52,26 @@ IsPrefix(a, b) == Len(a) <= Len(b) /\ SubSeq(b, 1, Len(a)) = a
 IsSuffix(a, b) == Len(a) <= Len(b) /\ SubSeq(b, Len(b) - Len(a) + 1, Len(b)) = a
 
 (* ------------------------------ query ------------------------------ *)
-\* keys "ab" / "ba" contain the keys "a" and "b" as prefix / suffix: an edit that looks for a
-\* key by substring instead of by whole (decoded) key shows up on them
-EncKey == [a |-> "%61", b |-> "%62", c |-> "%63", ab |-> "%61b", ba |-> "b%61", url |-> "%75rl", url2 |-> "url%32"]
-Spell(k, enc) == IF enc THEN EncKey[k] ELSE k
-PairStr(p) == Spell(p.k, p.enc) \o (IF p.eq THEN "=" \o p.v ELSE "")
+\* A key is its decoded form; Spellings[k] are the raw spellings of it that can stand in a
+\* query string.  Keys "ab" / "ba" contain the keys "a" and "b" as prefix / suffix (an edit that
+\* looks for a key by substring shows up on them); keys whose decoded form contains a space,
+\* '+', '%', '&' or '=' have only escaped spellings ('+' is a spelling of the space).
+Spellings == ("a" :> {"a", "%61"}) @@ ("b" :> {"b", "%62"}) @@ ("c" :> {"c", "%63"})
+          @@ ("ab" :> {"ab", "%61b"}) @@ ("ba" :> {"ba", "b%61"}) @@ ("n" :> {"n"})
+          @@ ("u n" :> {"u+n", "u%20n"}) @@ ("u+n" :> {"u%2Bn", "u%2bn"}) @@ ("u%n" :> {"u%25n"})
+          @@ ("u&n" :> {"u%26n"}) @@ ("u=n" :> {"u%3Dn"})
+          @@ ("url" :> {"url", "%75rl"}) @@ ("url2" :> {"url2", "url%32"})
+PairStr(p) == p.sp \o (IF p.eq THEN "=" \o p.v ELSE "")
 QStr(q) == Join([i \in DOMAIN q |-> PairStr(q[i])], "&")
-Pair(k, enc, eq, v) == [k |-> k, enc |-> enc, eq |-> eq, v |-> v, dv |-> v]
+Pair(k, sp, eq, v) == [k |-> k, sp |-> sp, eq |-> eq, v |-> v, dv |-> v]
 
-Pairs == {Pair(k, e, TRUE, v) : k \in Keys, e \in BOOLEAN, v \in {"1", "a"}}    \* a value may look like a key
-           \cup {Pair(k, e, FALSE, "") : k \in Keys, e \in BOOLEAN}
+Pairs == UNION {{Pair(k, sp, TRUE, v) : sp \in Spellings[k], v \in {"1", "a"}}    \* a value may look like a key
+                  \cup {Pair(k, sp, FALSE, "") : sp \in Spellings[k]} : k \in Keys}
 Queries == UNION {[1..n -> Pairs] : n \in 0..MaxPairs}
 
 \* the decoded view a backend has of a query string: key -> ordered list of values
 Vals(q, k) == LET f == SelectSeq(q, LAMBDA p : p.k = k) IN [i \in DOMAIN f |-> f[i].dv]
-AllKeys == {"a", "b", "c", "ab", "ba", "n", "url", "url2"}
+AllKeys == DOMAIN Spellings
 QMap(q) == [k \in AllKeys |-> Vals(q, k)]
 HasKey(q, k) == \E i \in DOMAIN q : q[i].k = k
 
@@ -88,14 +93,14 @@ QueryRenamePost(q, o, n, r) ==                             \* n not present befo
 \* ---- Layer M: what the code does (segment-wise edit of the raw query string)
 QueryDel(q, ks) == SelectSeq(q, LAMBDA p : p.k \notin ks)
 QueryDelAllExcept(q, ks) == SelectSeq(q, LAMBDA p : p.k \in ks)
-QueryAdd(q, k, v) == Append(q, Pair(k, FALSE, TRUE, v))
+QueryAdd(q, k, v) == Append(q, Pair(k, k, TRUE, v))
 QueryRename(q, o, n) == [i \in DOMAIN q |->
-                           IF q[i].k = o THEN [q[i] EXCEPT !.k = n, !.enc = FALSE] ELSE q[i]]
+                           IF q[i].k = o THEN [q[i] EXCEPT !.k = n, !.sp = n] ELSE q[i]]
 
 \* spelling class of the pairs an action has to find (part of the failure signature)
 FormClass(q, ks) ==
     LET hit == {i \in DOMAIN q : q[i].k \in ks}
-        e == \E i \in hit : q[i].enc
+        e == \E i \in hit : q[i].sp # q[i].k
         n == \E i \in hit : ~q[i].eq
     IN IF hit = {} THEN "absent"
        ELSE IF e /\ n THEN "enc+noeq" ELSE IF e THEN "enc" ELSE IF n THEN "noeq" ELSE "plain"
@@ -198,7 +203,7 @@ HostCases ==
        : r \in {[Req0 EXCEPT !.path = p] : p \in {x \in Paths : Len(x) = 1}}}
 
 PathCases ==
-    LET rs == {[Req0 EXCEPT !.path = p, !.q = <<Pair("a", FALSE, TRUE, "1")>>] : p \in Paths} IN
+    LET rs == {[Req0 EXCEPT !.path = p, !.q = <<Pair("a", "a", TRUE, "1")>>] : p \in Paths} IN
     {RW("PATH_SET", <<PathStr(np)>>, "set", All, r, HostStr(r.host), PathStr(np), r.q)
        : r \in rs, np \in {<<"n">>, <<"n", "m">>, <<"">>}}
     \cup
@@ -231,22 +236,26 @@ PathCases ==
     {RW("PATH_PREFIX_TRIM", <<"/a">>, "partial-segment", {}, r, HostStr(r.host), "/b/c", r.q)
        : r \in {x \in rs : x.path = <<"ab", "c">>}}
 
-\* one case per (kind, query); enumerated by Init without building the set of all cases
+\* one case per (kind, configured key, query); enumerated by Init without building the set of
+\* all cases.  The configured key k (decoded form, as written in the rule file) ranges over
+\* the keys with special characters too; new names (QUERY_ADD key, QUERY_RENAME target) stay
+\* plain: how a new name that needs escaping is written is not described.
+ParamKeys == Keys \ {"b", "c", "ab", "ba"}
 QueryKinds == {"del1", "del2", "except", "add-a", "add-n", "ren-n", "ren-b"}
-QueryCase(kind, q) ==
+QueryCase(kind, k, q) ==
     LET r == [Req0 EXCEPT !.q = q]
         H == HostStr(Req0.host)
         P == PathStr(Req0.path) IN
-    CASE kind = "del1" -> RW("QUERY_DEL", <<"a">>, FormClass(q, {"a"}), All, r, H, P, QueryDel(q, {"a"}))
-      [] kind = "del2" -> RW("QUERY_DEL", <<"a", "b">>, FormClass(q, {"a", "b"}), All, r, H, P, QueryDel(q, {"a", "b"}))
-      [] kind = "except" -> RW("QUERY_DEL_ALL_EXCEPT", <<"a">>, FormClass(q, AllKeys \ {"a"}), All, r, H, P,
-                               QueryDelAllExcept(q, {"a"}))
+    CASE kind = "del1" -> RW("QUERY_DEL", <<k>>, FormClass(q, {k}), All, r, H, P, QueryDel(q, {k}))
+      [] kind = "del2" -> RW("QUERY_DEL", <<k, "b">>, FormClass(q, {k, "b"}), All, r, H, P, QueryDel(q, {k, "b"}))
+      [] kind = "except" -> RW("QUERY_DEL_ALL_EXCEPT", <<k>>, FormClass(q, AllKeys \ {k}), All, r, H, P,
+                               QueryDelAllExcept(q, {k}))
       [] kind = "add-a" -> RW("QUERY_ADD", <<"a", "9">>, "add", All, r, H, P, QueryAdd(q, "a", "9"))
       [] kind = "add-n" -> RW("QUERY_ADD", <<"n", "9">>, "add", All, r, H, P, QueryAdd(q, "n", "9"))
       \* renaming onto a key that is already present is not described: gray
-      [] kind = "ren-n" -> RW("QUERY_RENAME", <<"a", "n">>, FormClass(q, {"a"}), All, r, H, P, QueryRename(q, "a", "n"))
-      [] kind = "ren-b" -> RW("QUERY_RENAME", <<"a", "b">>, FormClass(q, {"a"}), IF HasKey(q, "b") THEN {} ELSE All,
-                              r, H, P, QueryRename(q, "a", "b"))
+      [] kind = "ren-n" -> RW("QUERY_RENAME", <<k, "n">>, FormClass(q, {k}), All, r, H, P, QueryRename(q, k, "n"))
+      [] kind = "ren-b" -> RW("QUERY_RENAME", <<k, "b">>, FormClass(q, {k}), IF HasKey(q, "b") THEN {} ELSE All,
+                              r, H, P, QueryRename(q, k, "b"))
 
 \* ---- headers
 HD(cmd, params, class, judge, r, eHdr, eRhdr) ==
@@ -291,9 +300,9 @@ CookieCases ==
 RD(cmd, params, class, judge, r, url, code) ==
     Case("redirect", cmd, params, class, judge, r, HostStr(r.host), PathStr(r.path), r.q, r.hdr, r.rhdr, url, code)
 Uri(r) == PathStr(r.path) \o (IF Len(r.q) = 0 THEN "" ELSE "?" \o QStr(r.q))
-UrlPair(enc, v, dv) == [k |-> "url", enc |-> enc, eq |-> TRUE, v |-> v, dv |-> dv]
-RedirQueries == {<<>>, <<Pair("a", FALSE, TRUE, "1")>>, <<Pair("a", FALSE, TRUE, "1"), Pair("b", TRUE, FALSE, "")>>,
-                 <<Pair("url2", FALSE, TRUE, "https://decoy.example.org/"), Pair("url2", TRUE, TRUE, "x")>>}   \* a name that contains "url"
+UrlPair(enc, v, dv) == [k |-> "url", sp |-> IF enc THEN "%75rl" ELSE "url", eq |-> TRUE, v |-> v, dv |-> dv]
+RedirQueries == {<<>>, <<Pair("a", "a", TRUE, "1")>>, <<Pair("a", "a", TRUE, "1"), Pair("b", "%62", FALSE, "")>>,
+                 <<Pair("url2", "url2", TRUE, "https://decoy.example.org/"), Pair("url2", "url%32", TRUE, "x")>>}   \* a name that contains "url"
 Codes == {301, 302}
 
 RedirectCases ==
@@ -328,7 +337,8 @@ vars == <<cur>>
 
 Init == \/ cur \in HostCases
         \/ cur \in PathCases
-        \/ \E kind \in QueryKinds, q \in Queries : cur = QueryCase(kind, q)
+        \/ \E kind \in QueryKinds, k \in ParamKeys, q \in Queries :
+              (kind \in {"add-a", "add-n"} => k = "a") /\ cur = QueryCase(kind, k, q)
         \/ cur \in HeaderCases \cup VarAcceptCases \cup CookieCases
         \/ cur \in RedirectCases
 Next == UNCHANGED cur
